@@ -227,6 +227,25 @@ func (ps *pathState) evalCached(t *Term) (uint64, bool) {
 	return t.Eval(ps.model, map[int]uint64{}), true
 }
 
+// zeroModelSat: does the all-zeros assignment satisfy the path condition and
+// extra? A cheap witness tried before the solver is asked for one (a
+// satisfying assignment found by evaluation is as good as the solver's).
+func (ps *pathState) zeroModelSat(extra *Term) (ok bool) {
+	defer func() {
+		if recover() != nil {
+			ok = false
+		}
+	}()
+	m := Model{}
+	memo := map[int]uint64{}
+	for _, c := range ps.pc {
+		if c.Eval(m, memo) == 0 {
+			return false
+		}
+	}
+	return extra.Eval(m, memo) != 0
+}
+
 func (ps *pathState) tooDeep(i *interpreter) {
 	if len(ps.trail) >= i.w.cfg.MaxDecisions {
 		ps.unwind = fmt.Sprintf("more than %d symbolic decisions on one path at %s", i.w.cfg.MaxDecisions, i.where())
@@ -281,7 +300,15 @@ func (i *interpreter) truth(c value) bool {
 		}
 	}
 	var mT, mF Model
-	if !canT {
+	if !canT && ps.zeroModelSat(s.T) {
+		canT, mT = true, Model{}
+	} else if !canF && ps.zeroModelSat(tt.Not(s.T)) {
+		canF, mF = true, Model{}
+	}
+	zT, zF := mT != nil, mF != nil
+	if zT {
+		// (decided by the zero witness)
+	} else if !canT {
 		r, m := i.check(s.T, true, "feas")
 		if r == Unknown {
 			ps.inconclFeas++ // keeps the branch: sound for "holds"
@@ -291,7 +318,9 @@ func (i *interpreter) truth(c value) bool {
 	} else {
 		mT = ps.model
 	}
-	if !canF {
+	if zF {
+		// (decided by the zero witness)
+	} else if !canF {
 		r, m := i.check(tt.Not(s.T), true, "feas")
 		if r == Unknown {
 			ps.inconclFeas++
